@@ -1626,8 +1626,13 @@ func par6(c *Ctx) {
 				m.onCall = func(m *symMachine, call ssa.CallInstruction, callee *ssa.Function, args []symVal) (symVal, bool) {
 					switch callee {
 					case p.canAtom:
+						// a pure test of the cursor: true while elements remain, however often it is asked
 						nCan++
-						return nCan <= more, true
+						total := more
+						if required {
+							total++
+						}
+						return nChoice < total, true
 					case p.choice:
 						nChoice++
 						m.event("choice#%d", nChoice)
